@@ -873,6 +873,46 @@ fn check_temp_shaped_public_ids(rep: &mut Report, property: Option<&str>, dir: &
     }
 }
 
+/// complex selectors over annotations with offsets: the alignment of the offsets survives the round trip also when the
+/// annotations referred to become neighbours on reading (a gap closes) and the selector is stored as a range
+fn check_alignment_in_complex_selectors(rep: &mut Report, dir: &std::path::Path) {
+    let _ = dir;
+    for kind in 0..3 { for gap in [false, true] { for whole_as_end_aligned in [false, true] {
+        let build = move || -> Result<AnnotationStore, StamError> {
+            let mut store = AnnotationStore::default().with_id("s").with_resource(TextResourceBuilder::new().with_id("r0").with_text("hello brave new world"))?;
+            let words = [(0usize, 5usize), (6, 11), (12, 15), (16, 21)];
+            for (i, (b, e)) in words.iter().enumerate() { store.annotate(AnnotationBuilder::new().with_id(format!("w{}", i)).with_target(SelectorBuilder::textselector("r0", Offset::simple(*b, *e))).with_data("set", "type", "word"))?; }
+            if gap { store.remove_annotation("w1")?; }
+            let (x, y) = if gap { ("w0", "w2") } else { ("w0", "w1") };
+            let off = |len: usize| if whole_as_end_aligned { Offset::whole() } else { Offset::simple(0, len) };
+            let subs = vec![SelectorBuilder::annotationselector(x, Some(off(5))), SelectorBuilder::annotationselector(y, Some(off(if gap { 3 } else { 5 })))];
+            store.annotate(AnnotationBuilder::new().with_id("phrase").with_target(match kind { 0 => SelectorBuilder::compositeselector(subs), 1 => SelectorBuilder::multiselector(subs), _ => SelectorBuilder::directionalselector(subs) }).with_data("set", "type", "phrase"))?;
+            Ok(store)
+        };
+        let name = format!("{}/{}/{}", ["composite", "multi", "directional"][kind], if gap { "neighbours-after-reading" } else { "neighbours" }, if whole_as_end_aligned { "end-aligned-ends" } else { "begin-aligned-ends" });
+        rep.count(&format!("json:alignment-in-complex-selector:{}", name));
+        rep.case(Some(&format!("alignment-in-complex-selector {}", name)));
+        let ctx = vec![format!("words w0..w3 on text{}; annotation 'phrase' = {} selector over two of them, each with the offset {}", if gap { ", w1 removed" } else { "" }, ["composite", "multi", "directional"][kind], if whole_as_end_aligned { "0 .. -0 (Offset::whole())" } else { "0 .. length" })];
+        let r = guarded(std::panic::AssertUnwindSafe(|| -> Result<(Vec<String>, Vec<String>, String, String), StamError> {
+            let store = build()?;
+            let before = canon(&store, false);
+            let js = store.to_json_string(&Config::default())?;
+            let st2 = AnnotationStore::from_str(&js, Config::default())?;
+            let after = canon(&st2, false);
+            let js2 = st2.to_json_string(&Config::default())?;
+            Ok((before, after, js, js2))
+        }));
+        match r {
+            Ok(Ok((before, after, js, js2))) => {
+                if before != after { let (x, y) = first_diff(&before, &after); rep.fail("oracle", "C05/roundtrip/alignment-in-complex-selector", ctx.clone(), &x, &y); }
+                else if js != js2 { rep.fail("oracle", "C05/roundtrip/alignment-in-complex-selector/second-write-differs", ctx.clone(), "identical output", &format!("{} bytes vs {} bytes", js.len(), js2.len())); }
+            }
+            Ok(Err(e)) => rep.fail("oracle", "C05/roundtrip/alignment-in-complex-selector/refused", ctx.clone(), "a round trip", &format!("{}", e)),
+            Err(m) => rep.fail("panic", "C05/roundtrip/alignment-in-complex-selector/panic", ctx.clone(), "a round trip", &m),
+        }
+    } } }
+}
+
 /// two STAM JSON documents over the same resource and the same dataset identifier, the second merged into the store
 /// loaded from the first (`from_file(a)?.with_file(b)`): the store must hold what both files say — every key, every
 /// data item with its value, every annotation with its data (referred to by id across the files) and its text
@@ -1018,6 +1058,7 @@ pub fn run(opts: &Opts) -> Report {
     }
     check_temp_shaped_public_ids(&mut rep, property, &dir);
     if property.map(|p| p == "C15").unwrap_or(true) { check_csv_files(&mut rep, &dir); }
+    if property.map(|p| p == "C05").unwrap_or(true) { check_alignment_in_complex_selectors(&mut rep, &dir); }
     if property.map(|p| p == "C05").unwrap_or(true) { for i in 0..12 { check_substores(&mut rep, &dir, i); } for i in 0..108 { check_merge(&mut rep, &dir, i); } }
     // minimise
     let mut done: std::collections::BTreeSet<(String, String)> = Default::default();
